@@ -16,6 +16,9 @@ EXPLANATION = (
 EXPLANATION += (
     ' M4 swap returns early for i == j and addresses both elements through offset_of. M5 every value ErasedList::concat returns is the list created by ErasedList::new in that call (never a clone of an operand handle, which would share storage with it).'
 )
+EXPLANATION += (  # round-3 supplement
+    ' M6 the element loop of script-side equality is dominated by a comparison of both lengths read under the held guards. M7 two mutexes held together are acquired in address order. M8 functions that own an element they are given drop it on every return path. M4 is decided by boolean path simulation over the index/len comparisons.'
+)
 ASSUMPTIONS = [
     "std::sync::Mutex is not re-entrant; a second lock() on a held mutex in one thread deadlocks or panics",
     "origin tracing is flow-insensitive over single-definition MIR temporaries; user variables that are re-assigned are treated as distinct roots",
